@@ -455,8 +455,13 @@ def done(label, inv):
     return f
 
 
+def internal(fn):
+    """a clause about the callee's own ghost trace: checked when the function is verified, not assumed at call sites"""
+    return lambda c: z3.BoolVal(True) if c.at_call_site else fn(c)
+
+
 def completes(*labels):
-    return ("member-loops-run-to-completion", lambda c: z3.BoolVal(all(c.st.ghost.get(("done", l)) for l in labels)))
+    return ("member-loops-run-to-completion", internal(lambda c: z3.BoolVal(all(c.st.ghost.get(("done", l)) for l in labels))))
 
 
 def events(st, key):
@@ -1057,8 +1062,8 @@ def member_contracts():
         target=f"{ARCH}::_process_archive_entry",
         params=[("filename", p_str()), ("file_data", p_ext("Blob")), ("archive_path", p_opt(p_str())), ("basename", p_str())],
         generator=True, raises=[],
-        ensures=[("one-dispatch-extractor-by-basename-member-bytes-archive!/member-path", pe_dispatch_ok),
-                 ("member-dispatched-and-all-its-results-yielded-unless-it-fails", pe_complete)],
+        ensures=[("one-dispatch-extractor-by-basename-member-bytes-archive!/member-path", internal(pe_dispatch_ok)),
+                 ("member-dispatched-and-all-its-results-yielded-unless-it-fails", internal(pe_complete))],
         loops={0: LoopSpec(inv=done("yields-the-extractor-results-in-order", pe_inv), label="yields-the-extractor-results-in-order")},
         result_maker=lambda ex, st, ctx: VExt("EntryGen", entry_term(ctx.args["filename"].t, ctx.args["file_data"].t,
                                                                      ctx.args["archive_path"], ctx.args["basename"].t)),
@@ -1130,7 +1135,7 @@ def member_contracts():
         target=f"{ARCH}::_extract_from_zip_optimized",
         params=[("file_like", p_ext("Stream7z")), ("archive_path", p_opt(p_str()))],
         generator=True,
-        ensures=[completes("selects-the-visible-supported-members-in-infolist-order", "each-selected-member-dispatched-with-its-own-bytes-name-basename"), ("container-opened-on-the-given-bytes", lambda c: z3.BoolVal(c.st.ghost.get("zip_source") is c.args["file_like"]))],
+        ensures=[completes("selects-the-visible-supported-members-in-infolist-order", "each-selected-member-dispatched-with-its-own-bytes-name-basename"), ("container-opened-on-the-given-bytes", internal(lambda c: z3.BoolVal(c.st.ghost.get("zip_source") is c.args["file_like"])))],
         raises=[Raises(ENC, label="an entry is encrypted"), Raises("Exception", sub=True, label="the container could not be opened",
                                                                   when=lambda c: z3.BoolVal(c.exc is not None and c.exc.attrs.get("site") == "zipfile.ZipFile()")),
                 Raises("ExtractionFailedError", label="BadZipFile from the constructor")],
@@ -1176,7 +1181,7 @@ def member_contracts():
         target=f"{ARCH}::_extract_from_tar_optimized",
         params=[("file_like", p_ext("Stream7z")), ("archive_path", p_opt(p_str())), ("mode", p_str())],
         generator=True,
-        ensures=[completes("each-visible-supported-regular-member-dispatched-in-getmembers-order"), ("container-opened-on-the-given-bytes-with-the-given-mode", tar_opened_ok)],
+        ensures=[completes("each-visible-supported-regular-member-dispatched-in-getmembers-order"), ("container-opened-on-the-given-bytes-with-the-given-mode", internal(tar_opened_ok))],
         raises=[Raises("Exception", sub=True, label="the container could not be opened / listed",
                        when=lambda c: z3.BoolVal(c.exc is not None and c.exc.attrs.get("site") in ("tarfile.open()", "TarFile.getmembers()"))),
                 Raises("ExtractionFailedError", label="TarError")],
@@ -1273,7 +1278,7 @@ def member_contracts():
         target=f"{ARCH}::_extract_from_7z_optimized",
         params=[("file_like", p_ext("Stream7z")), ("archive_path", p_opt(p_str()))],
         generator=True,
-        ensures=[completes("selects-the-visible-supported-members-in-list-order"), ("selected-members-extracted-to-a-private-dir-and-processed-in-list-order", z7_post)],
+        ensures=[completes("selects-the-visible-supported-members-in-list-order"), ("selected-members-extracted-to-a-private-dir-and-processed-in-list-order", internal(z7_post))],
         raises=[Raises("ExtractionError", sub=True, label="too large / encrypted / extraction failed / invalid archive"),
                 Raises("Exception", sub=True, label="container / temp dir could not be opened",
                        when=lambda c: z3.BoolVal(c.exc is not None and "site" in c.exc.attrs))],
@@ -1284,6 +1289,313 @@ def member_contracts():
     return out
 
 
+# ====================================================== _build_file_list (b) ==
+# Header view (FilesInfo + SubStreamsInfo), index functions of the file number / folder number:
+ES = z3.Function("empty_stream", I, B)             # kEmptyStream bit of file i
+EF = z3.Function("empty_file", I, B)               # kEmptyFile bit (meaningful when ES): 1 = zero-length FILE, 0 = directory
+NAME = z3.Function("name_of_file", I, S)
+ATTR = z3.Function("attributes_of_file", I, z3.BitVecSort(32))
+FSZ = z3.Function("substream_size_flat", I, I)     # sizes of the sub-streams, folder after folder (SubStreamsInfo)
+NFS = z3.Int("num_substream_sizes")
+NS = z3.Function("folder_num_streams", Folder, I)
+MF = z3.Int("num_folders_b")
+NFL = z3.Int("num_files_b")
+
+
+def NSK(k):
+    return NS(FOLD(k))
+
+
+def STREAM(i):
+    return z3.Not(ES(i))
+
+
+RANK = z3.RecFunction("streams_before_file", I, I)           # number of stream-bearing files among files [0, i)
+z3.RecAddDefinition(RANK, [_i], z3.If(_i <= 0, 0, RANK(_i - 1) + z3.If(STREAM(_i - 1), 1, 0)))
+CUM = z3.RecFunction("streams_before_folder", I, I)          # sum of num_streams of folders [0, k)
+z3.RecAddDefinition(CUM, [_k], z3.If(_k <= 0, 0, CUM(_k - 1) + NSK(_k - 1)))
+
+
+class VHandle(VExt):
+    """an element of a list built earlier in the same function (PY-LIST-ORDER): carries its index"""
+    __slots__ = ("idx", "fields")
+
+    def __init__(self, sort, idx, fields):
+        super().__init__(sort, z3.Const(fresh_name(sort), ext_sort(sort)))
+        self.idx, self.fields = idx, fields
+
+
+def subst_index(term, i_const, j):
+    """term[i := j]; the term may mention no other loop-local (fresh) constant"""
+    stack, seen = [term], set()
+    while stack:
+        x = stack.pop()
+        if x.get_id() in seen:
+            continue
+        seen.add(x.get_id())
+        if z3.is_const(x) and x.decl().kind() == z3.Z3_OP_UNINTERPRETED and "!" in x.decl().name() and not x.eq(i_const):
+            raise ops.Unsupported(f"captured field value depends on a loop-local value {x.decl().name()}")
+        stack.extend(x.children())
+    return z3.substitute(term, (i_const, j))
+
+
+def build_contracts(reg):
+    out = []
+
+    def m_setdefault(ex, st, obj, args, kwargs, node):
+        h = VExt("FolderList")
+        st.ghost[("folderlist", h.t.get_id())] = args[0]
+        return [(st, h)]
+
+    def m_fl_append(ex, st, obj, args, kwargs, node):
+        k = st.ghost.get(("folderlist", obj.t.get_id()))
+        st.ghost["maps"] = events(st, "maps") + ((k, args[0]),)
+        return [(st, NONE)]
+
+    reg.method_models[("FolderMap", "setdefault")] = m_setdefault
+    reg.method_models[("FolderList", "append")] = m_fl_append
+    reg.attr_models[("Folder", "num_streams")] = lambda ex, st, o: VInt(NS(o.t))
+    reg.attr_models[("BuiltFile", "is_directory")] = lambda ex, st, o: o.fields["is_directory"]
+
+    def set_built(ex, st, base, attr, v, node):
+        st.ghost["setattrs"] = events(st, "setattrs") + ((base.idx, attr, v),)
+        return [st]
+    reg.ext_models[("setattr", "BuiltFile")] = set_built
+
+    def b_self():
+        def empty(ex, st, name):
+            return VRef(st.alloc(HeapObj("list", [], fresh=False), ex.refs))
+        return p_obj("SevenZipReader", {
+            "_file_sizes": p_intseq(FSZ, NFS), "_files": Maker(empty, desc="[] (as left by __init__)"),
+            "_folders": Maker(lambda ex, st, name: [(MF >= 0, VSeq(MF, lambda k: VExt("Folder", FOLD(k)), "Folder"))], desc="list[Folder]"),
+            "_folder_to_files": p_ext("FolderMap")})
+
+    def b_requires(c):
+        t = z3.Int("t!req")
+        n = ops.int_term(c.args["num_files"])
+        return z3.And(
+            n == NFL, NFL >= 0, NFS >= 0,
+            # writers' invariants (7-Zip, py7zr; format description): a directory entry has no stream; every folder
+            # holds at least one sub-stream; SubStreamsInfo lists one size per stream-bearing file
+            z3.ForAll([t], z3.Implies(z3.And(t >= 0, t < NFL, (ATTR(t) & z3.BitVecVal(0x10, 32)) != 0), ES(t)), patterns=[ATTR(t)]),
+            z3.ForAll([t], z3.Implies(z3.And(t >= 0, t < MF), NSK(t) >= 1), patterns=[FOLD(t)]),
+            RANK(NFL) <= NFS)
+
+    def files_ref(st):
+        return st.obj(st.lookup("self").ref).data["_files"]
+
+    def size_index_local(lc):
+        v = lc.st.lookup("size_index")
+        if not isinstance(v, VInt):
+            raise ops.Unsupported("_build_file_list: running sub-stream index not found")
+        return ops.int_term(v)
+
+    cap = {}
+
+    def files_inv(lc):
+        i = lc.i
+        conj = [size_index_local(lc) == RANK(i), RANK(i) >= 0]
+        if lc.extra.get("phase") == "assume":
+            lc.st.assume(rank_mono_at(i + 1, NFL))      # lemma rank-monotone (induction, lemmas()), instantiated at this index
+        if lc.extra.get("phase") == "preserve":
+            j = i - 1
+            fr = files_ref(lc.entry)
+            new = [v for (r, v) in new_events(lc, "appends") if isinstance(fr, VRef) and r == fr.ref]
+            ok = z3.BoolVal(False)
+            if len(new) == 1 and isinstance(new[0], VRef) and lc.st.obj(new[0].ref).cls == "FileInfo":
+                d = lc.st.obj(new[0].ref).data
+                fn, us, isd, at, fx = d.get("filename"), d.get("uncompressed"), d.get("is_directory"), d.get("attributes"), d.get("folder_index")
+                if isinstance(fn, VStr) and isinstance(us, VInt) and isinstance(isd, VBool) and isinstance(at, VInt) and isinstance(fx, VInt):
+                    ok = z3.And(fn.t == NAME(j), ops.eq_term(at, VInt(ATTR(j))),
+                                ops.int_term(us) == z3.If(STREAM(j), FSZ(RANK(j)), 0),
+                                z3.Implies(STREAM(j), z3.Not(isd.t)), ops.int_term(fx) == 0)
+                    # recorded finding F25 (separate obligation): per the format, an entry is a directory iff it has no
+                    # stream AND is not flagged kEmptyFile
+                    lc.ex.add_vc("ensures", "empty-file-is-not-a-directory", lc.st.pc, isd.t == z3.And(ES(j), z3.Not(EF(j))),
+                                 note="FileInfo.is_directory must be emptyStream AND NOT emptyFile (7zFormat.txt, FilesInfo)", loc="")
+                    i_c = i.arg(0) if z3.is_add(i) else None
+                    if i_c is None or not z3.is_const(i_c):
+                        raise ops.Unsupported("loop index shape")
+                    cap.setdefault("isdir", []).append((i_c, isd.t))
+            conj.append(ok)
+        if lc.extra.get("phase") == "exit":
+            # PY-LIST-ORDER: self._files is now [file 0, ..., file N-1] as appended; field values as recorded above
+            caps = cap.get("isdir", [])
+            if not caps:
+                raise ops.Unsupported("_build_file_list: no FileInfo append recorded")
+            i_c, t = caps[0]
+            forms = [subst_index(tt, ic, z3.Int("j!canon")) for ic, tt in caps]
+            if any(not f.eq(forms[0]) for f in forms):
+                raise ops.Unsupported("is_directory computed differently on different paths")
+            v = VSeq(NFL, lambda j: VHandle("BuiltFile", j, {"is_directory": VBool(subst_index(t, i_c, j))}), "BuiltFile")
+            lc.st.wobj(lc.st.lookup("self").ref).data["_files"] = v
+        return z3.And(conj)
+
+    def map_inv(lc):
+        i = lc.i
+        fidx, fif = lc.st.lookup("folder_idx"), lc.st.lookup("file_in_folder")
+        if not (isinstance(fidx, VInt) and isinstance(fif, VInt)):
+            raise ops.Unsupported("_build_file_list: folder cursor locals not found")
+        k, j = ops.int_term(fidx), ops.int_term(fif)
+        r = RANK(i)
+        conj = [0 <= k, k <= MF,
+                z3.Implies(k < MF, z3.And(CUM(k) + j == r, 0 <= j, j < NSK(k))),
+                z3.Implies(k == MF, r >= CUM(MF))]
+        if lc.extra.get("phase") == "preserve":
+            f = i - 1
+            rf = RANK(f)
+            maps, sets = new_events(lc, "maps"), new_events(lc, "setattrs")
+            mapped = z3.And(STREAM(f), rf < CUM(MF))
+            ok = z3.BoolVal(False)
+            if len(maps) == 0 and len(sets) == 0:
+                ok = z3.Not(mapped)
+            elif len(maps) == 1 and len(sets) == 1:
+                (mk, mi), (si, attr, sv) = maps[0], sets[0]
+                if isinstance(mk, VInt) and isinstance(mi, VInt) and isinstance(sv, VInt) and attr == "folder_index":
+                    kk = ops.int_term(mk)
+                    ok = z3.And(STREAM(f), ops.int_term(mi) == f, si == f, ops.int_term(sv) == kk,
+                                0 <= kk, kk < MF, CUM(kk) <= rf, rf < CUM(kk) + NSK(kk))
+            conj.append(ok)
+        return z3.And(conj)
+
+    out.append(FnContract(
+        target=f"{RD}._build_file_list",
+        params=[("self", b_self()), ("num_files", p_int(0)),
+                ("empty_streams", Maker(lambda ex, st, name: VSeq(NFL, lambda i: VBool(ES(i)), "bool"), desc="list[bool]")),
+                ("names", Maker(lambda ex, st, name: VSeq(NFL, lambda i: VStr(NAME(i)), "str"), desc="list[str]")),
+                ("attributes", Maker(lambda ex, st, name: VSeq(NFL, lambda i: VInt(ATTR(i)), "int"), desc="list[uint32]"))],
+        requires=b_requires, raises=[], modifies=("self",),
+        ensures=[completes("file-i-gets-its-name-attributes-and-the-size-of-its-sub-stream",
+                           "file-with-r-th-stream-goes-to-the-folder-k-with-cum(k)<=r<cum(k+1)")],
+        loops={0: LoopSpec(inv=done("file-i-gets-its-name-attributes-and-the-size-of-its-sub-stream", files_inv),
+                           label="file-i-gets-its-name-attributes-and-the-size-of-its-sub-stream"),
+               1: LoopSpec(inv=done("file-with-r-th-stream-goes-to-the-folder-k-with-cum(k)<=r<cum(k+1)", map_inv),
+                           label="file-with-r-th-stream-goes-to-the-folder-k-with-cum(k)<=r<cum(k+1)")},
+        note="files without a stream are skipped, in header order; the r-th stream-bearing file is sub-stream j = r - cum(k) of the "
+             "unique folder k with cum(k) <= r < cum(k) + num_streams(k); position j in _folder_to_files[k] follows from append order"))
+    return out
+
+
+def rank_mono_at(a, b):
+    """lemma rank-monotone: 0 <= a <= b  =>  RANK(a) <= RANK(b)   (proved by induction on b in lemmas())"""
+    return z3.Implies(z3.And(0 <= a, a <= b), RANK(a) <= RANK(b))
+
+
+# ============================================================ detection (f) ==
+# published magic numbers (PKWARE APPNOTE 4.3.7 / 4.3.16, 7zFormat.txt, RFC 1952, bzip2 "BZh", xz file format 2.1.1.1,
+# POSIX ustar header: "ustar" at offset 257)
+SIGS = (("zip", b"PK\x03\x04"), ("zip", b"PK\x05\x06"), ("7z", b"7z\xbc\xaf\x27\x1c"), ("tar.gz", b"\x1f\x8b"),
+        ("tar.bz2", b"BZh"), ("tar.xz", b"\xfd7zXZ\x00"))
+TAR_MODE = {"tar": ("r:", "r:tar"), "tar.gz": ("r:gz",), "tar.bz2": ("r:bz2",), "tar.xz": ("r:xz",)}
+TYPES = ("zip", "7z", "tar", "tar.gz", "tar.bz2", "tar.xz")
+
+
+def hdr(c):
+    """(n, H): the first min(512, len) bytes of the input"""
+    s_ = c.args["file_like"].t
+    L = SLEN(s_)
+    return z3.If(L < 512, L, z3.IntVal(512)), (lambda i: SB(s_, z3.IntVal(i) if isinstance(i, int) else i))
+
+
+def sig_at(n, H, magic, off=0):
+    return z3.And([n >= off + len(magic)] + [H(off + i) == bv(b) for i, b in enumerate(magic)])
+
+
+def res_is(c, t):
+    r = c.result
+    if t is None:
+        return z3.BoolVal(r is NONE)
+    return r.t == z3.StringVal(t) if isinstance(r, VStr) else z3.BoolVal(False)
+
+
+def detect_contracts():
+    out = []
+
+    def clause(t, magic):
+        return (f"{t}-signature-{magic.hex()}-detected-as-{t}", lambda c: z3.Implies(sig_at(*hdr(c), magic), res_is(c, t)))
+
+    def is_plain_tar(c):
+        n, H = hdr(c)
+        return z3.And(sig_at(n, H, b"ustar", 257), H(0) != bv(0))      # ustar header whose name field is not empty
+
+    def collides(c):
+        """F26: the first member's name starts with another format's magic (the code tests only 2 bytes of bzip2's)"""
+        n, H = hdr(c)
+        return z3.Or([sig_at(n, H, m) for _t, m in SIGS if m != b"BZh"] + [sig_at(n, H, b"BZ")])
+
+    ens = [clause(t, m) for t, m in SIGS]
+    ens.append(("plain-tar-detected-as-tar", lambda c: z3.Implies(is_plain_tar(c), res_is(c, "tar"))))
+    ens.append(("plain-tar-detected-as-tar.outside-F26", lambda c: z3.Implies(z3.And(is_plain_tar(c), z3.Not(collides(c))), res_is(c, "tar"))))
+    ens.append(("None-only-if-no-published-signature-matches",
+                lambda c: z3.Implies(res_is(c, None), z3.Not(z3.Or([sig_at(*hdr(c), m) for _t, m in SIGS] + [sig_at(*hdr(c), b"ustar", 257)])))))
+    def known_type(c):
+        if c.at_call_site:
+            c.st.ghost["detected_type"] = c.result
+        return z3.Or([res_is(c, None)] + [res_is(c, t) for t in TYPES])
+
+    ens.append(("result-is-None-or-a-known-type", known_type))
+    ens.append(("position-rewound", lambda c: common.bytesio_pos(c.st, c.args["file_like"]) == 0))
+
+    def det_result(ex, st, ctx):
+        st.ghost["detected"] = True
+        alts = [(None, NONE)] + [(None, VStr(t)) for t in TYPES]
+        return alts
+
+    out.append(FnContract(
+        target=f"{ARCH}::_detect_archive_type_optimized", params=[("file_like", p_ext("Stream7z"))],
+        requires=lambda c: SLEN(c.args["file_like"].t) >= 0,
+        ensures=ens, raises=[], result_maker=det_result,
+        frame=lambda ex, st, ctx: st.ghost.__setitem__(common.pos_key(ctx.args["file_like"]), z3.IntVal(0)),
+        note="symbolic over the first 512 bytes and the length of the input"))
+
+    # ---- read_archive: type -> member loop (and tar mode)
+    def ra_post(c):
+        r = events(c.st, "routes")
+        ys = events(c.st, "yields")
+        det = c.st.ghost.get("detected_type")
+        if len(r) != 1 or len(ys) != 1 or not isinstance(det, VStr):
+            return z3.BoolVal(False)
+        kind, fl, ap, mode = r[0]
+        t = det.const()
+        same = fl is c.args["file_like"] and (ap is c.args["path"] or (isinstance(ap, VStr) and isinstance(c.args["path"], VStr) and ap.t.eq(c.args["path"].t)))
+        if not same:
+            return z3.BoolVal(False)
+        if t in ("zip", "7z"):
+            return z3.BoolVal(kind == t)
+        if t in TAR_MODE:
+            return z3.And(z3.BoolVal(kind == "tar" and isinstance(mode, VStr)), z3.Or([mode.t == z3.StringVal(m) for m in TAR_MODE[t]]))
+        return z3.BoolVal(False)
+
+    out.append(FnContract(
+        target=f"{ARCH}::read_archive", params=[("file_like", p_ext("Stream7z")), ("path", p_opt(p_str()))],
+        requires=lambda c: SLEN(c.args["file_like"].t) >= 0,
+        generator=True,
+        ensures=[("detected-type-routed-to-its-member-loop-with-the-documented-tar-mode", ra_post)],
+        raises=[Raises("ExtractionError", sub=True, label="undetected / unsupported / failing container")],
+        note="zip -> zip loop, 7z -> 7z loop, tar / tar.gz / tar.bz2 / tar.xz -> tar loop with mode r:(tar) / r:gz / r:bz2 / r:xz"))
+    return out
+
+
+def table_check(repo, tier):
+    """MAGIC_SIGNATURES: every entry is a published magic number mapped to its format, length = len(magic)."""
+    m = loader.module(ARCH, repo)
+    try:
+        tab = m.literal("MAGIC_SIGNATURES")
+        tar_off, tar_magic = m.literal("TAR_MAGIC_OFFSET"), m.literal("TAR_MAGIC")
+    except Exception as e:  # noqa
+        return {"obligations": [], "undecided": [{"obligation": "C10/archive_extractor.py::MAGIC_SIGNATURES", "why": f"not literal: {e}"}]}
+    published = {b"PK\x03\x04": "zip", b"PK\x05\x06": "zip", b"7z\xbc\xaf\x27\x1c": "7z", b"\x1f\x8b": "tar.gz", b"BZ": "tar.bz2", b"BZh": "tar.bz2",
+                 b"\xfd7zXZ\x00": "tar.xz"}
+    bad = [e for e in tab if not (len(e) == 3 and published.get(e[0]) == e[1] and e[2] == len(e[0]))]
+    need = {"zip", "7z", "tar.gz", "tar.bz2", "tar.xz"} - {e[1] for e in tab}
+    obls = [ground_obligation("C10/archive_extractor.py::MAGIC_SIGNATURES/module-invariant#entries-are-published-magic-numbers-of-their-format",
+                              not bad and not need and b"PK\x03\x04" in [e[0] for e in tab], f"bad entries {bad[:3]}, missing {sorted(need)}", ARCH,
+                              kind="module-invariant", backend="ground"),
+            ground_obligation("C10/archive_extractor.py::TAR_MAGIC/module-invariant#ustar-at-257", tar_off == 257 and tar_magic == b"ustar",
+                              f"{tar_off} {tar_magic!r}", ARCH, kind="module-invariant", backend="ground")]
+    return {"obligations": obls}
+
+
 def contracts(reg):
     install_stream(reg)
     install_layout(reg)
@@ -1291,7 +1603,9 @@ def contracts(reg):
     out = []
     out.extend(byte_contracts())
     out.extend(layout_contracts())
+    out.extend(build_contracts(reg))
     out.extend(member_contracts())
+    out.extend(detect_contracts())
     return out
 
 
@@ -1307,11 +1621,18 @@ def lemmas():
         hyp = [SB(s, z3.IntVal(j)) == bv(b) for j, b in enumerate(data + b"\x00" * 9)]
         out.append((f"C10/spec::7z-NUMBER/lemma#known-answer.{i}", hyp,
                     z3.And(NUMV(s, z3.IntVal(0)) == bv(v, 64), NUML(s, z3.IntVal(0)) == n, z3.BoolVal(number_python(data) == (v, n)))))
+    # induction schemas (the induction variable b, the other variable a arbitrary but fixed)
+    a, b = z3.Int("a!lemma"), z3.Int("b!lemma")
+    out.append(("C10/spec::7z-layout/lemma#rank-monotone.base", [], rank_mono_at(a, z3.IntVal(0))))
+    out.append(("C10/spec::7z-layout/lemma#rank-monotone.step", [b >= 0, rank_mono_at(a, b)], rank_mono_at(a, b + 1)))
+    out.append(("C10/spec::7z-layout/lemma#pack-prefix-sum-nonneg.base", [], PS(z3.IntVal(0)) >= 0))
+    out.append(("C10/spec::7z-layout/lemma#pack-prefix-sum-nonneg.step", [b >= 0, PS(b) >= 0, PSZ(b) > 0], PS(b + 1) >= 0))
     return out
 
 
 EXECUTOR = MemberExecutor
 EXECUTOR_KW = {}
+EXTRA = [table_check]
 TRUSTED = []
 ASSUMED_MODELS = ["io.BytesIO.read/seek/tell on the header stream (bytes [pos, min(pos+n, len)), position advanced)",
                   "struct.unpack('<B'/'<H'/'<I'/'<Q'): little-endian unsigned"]
